@@ -3,6 +3,9 @@ import Ruint.Model.Canon
 import Ruint.Model.Conv
 import Ruint.Model.Bytes
 import Ruint.Model.Cmp
+import Ruint.Model.Mul
+import Ruint.Model.Shift
+import Ruint.Model.BitsRev
 /-!
 # Histories of safe operations over a register file (C04 closure)
 
@@ -39,6 +42,11 @@ inductive Op where
   | fill (d : Nat) (raw : List Nat)
   -- identity through `from_limbs(*as_limbs())`
   | rtLimbs (d a : Nat)
+  -- C02 / C05 / C06 (models and theorems owned by those properties)
+  | wmul (d a b : Nat) | smul (d a b : Nat)
+  | wshl (d a s : Nat) | wshr (d a s : Nat) | rotl (d a s : Nat) | rotr (d a s : Nat) | ashr (d a s : Nat)
+  | not (d a : Nat) | and (d a b : Nat) | or (d a b : Nat) | xor (d a b : Nat)
+  | setbit (d a i : Nat) (v : Bool) | revbits (d a : Nat)
   deriving Repr
 
 def resOk : Canon.Res → Option (List Nat)
@@ -77,6 +85,19 @@ def eval (bits : Nat) (regs : Regs) : Op → Option (Nat × List Nat)
       (resOk (Bytes.tryFromBeSlice bits (Bytes.toBeBytesTrimmedVec bits (rd bits regs a)))).map (d, ·)
   | .fill d raw => some (d, Canon.masked bits ((raw ++ List.replicate (nlimbs bits) 0).take (nlimbs bits)))
   | .rtLimbs d a => (Canon.fromLimbs bits (rd bits regs a)).map (d, ·)
+  | .wmul d a b => some (d, Mul.wrappingMul bits (rd bits regs a) (rd bits regs b))
+  | .smul d a b => some (d, Mul.saturatingMul bits (rd bits regs a) (rd bits regs b))
+  | .wshl d a s => some (d, Shift.wrappingShl bits (rd bits regs a) s)
+  | .wshr d a s => some (d, Shift.wrappingShr bits (rd bits regs a) s)
+  | .rotl d a s => some (d, Shift.rotateLeft bits (rd bits regs a) s)
+  | .rotr d a s => some (d, Shift.rotateRight bits (rd bits regs a) s)
+  | .ashr d a s => some (d, Shift.arithmeticShr bits (rd bits regs a) s)
+  | .not d a => some (d, Bits.not bits (rd bits regs a))
+  | .and d a b => some (d, Bits.bitAnd (rd bits regs a) (rd bits regs b))
+  | .or d a b => some (d, Bits.bitOr (rd bits regs a) (rd bits regs b))
+  | .xor d a b => some (d, Bits.bitXor (rd bits regs a) (rd bits regs b))
+  | .setbit d a i v => some (d, Bits.setBit bits (rd bits regs a) i v)
+  | .revbits d a => some (d, Bits.reverseBits bits (rd bits regs a))
 
 def step (bits : Nat) (regs : Regs) (op : Op) : Regs :=
   match eval bits regs op with
